@@ -456,7 +456,14 @@ _public_ int m_mod_register(const char *name, m_mod_t **mod_ref, const m_mod_hoo
             M_DEBUG("Module with same name already registered in context.");
             return -EEXIST;
         }
+        /*
+         * Replacing the last module of an idle, non persistent context
+         * must not release the context we are registering into.
+         */
+        const bool was_destroying = c->destroying;
+        c->destroying = true;
         ret = mod_deregister(&old_mod, false);
+        c->destroying = was_destroying;
         if (ret != 0) {
             return ret;
         }
